@@ -67,7 +67,19 @@ CHEAP = [_w(t) for t in [
     'UPDATE t SET a = 1 WHERE b = 2', 'DELETE FROM t WHERE a < 3', 'INSERT INTO t VALUES ( 1 , 2 )', "INSERT INTO t VALUES ( 'x;' )",
     'SELECT CASE WHEN a = 1 THEN 2 ELSE 3 END FROM t', 'v := CASE WHEN a > 1 THEN 1 ELSE 0 END', 'SELECT * FROM t WHERE a IN ( 1 , 2 ) ORDER_BY b', 'SET v = 2',
     'CREATE_OR_REPLACE VIEW v AS SELECT a FROM t', 'CREATE_OR_REPLACE TABLE t2 AS SELECT 1', 'CREATE TABLE t3 ( a int )', 'DROP TABLE t3', 'EXPLAIN CREATE_OR_REPLACE VIEW v AS SELECT 1',
+    'SELECT a FROM t WHERE b = 1 FOR UPDATE', 'OPEN c FOR SELECT a FROM t', 'OPEN c', 'FETCH c INTO v', 'CLOSE c', 'DECLARE c CURSOR FOR SELECT a FROM t',
+    'DECLARE CONTINUE HANDLER FOR NOT FOUND SET v = 1', 'DECLARE w int',
 ]]
+
+# declarations of a DECLARE section besides `name type`: cursors carry the keyword FOR without being loops
+DECLS = [_w(t) for t in ['c CURSOR FOR SELECT a FROM t', 'c2 CURSOR FOR SELECT 1', 'CURSOR c3 IS SELECT a FROM t FOR UPDATE', 'w int := 0']]
+
+
+def _decls(mk):
+    one = st.one_of(st.tuples(G.plain_name, st.sampled_from(G.TYPES)).map(lambda t: seq([t[0]], L('type', t[1]))),
+                    st.tuples(G.plain_name, st.sampled_from(G.TYPES)).map(lambda t: seq([t[0]], L('type', t[1]))),
+                    st.sampled_from(DECLS).map(lambda x: [list(l) for l in x]))
+    return st.lists(one, min_size=1, max_size=3).map(lambda ds: seq(mk(), [seq(d, semi()) for d in ds]))
 
 
 @functools.lru_cache(maxsize=None)
@@ -121,11 +133,11 @@ def stmt(depth, exclude):
 
 
 @functools.lru_cache(maxsize=None)
-def block(depth, exclude):
-    decl = st.lists(st.tuples(G.plain_name, st.sampled_from(G.TYPES)), min_size=1, max_size=2).map(
-        lambda ds: seq(kw('DECLARE'), [seq([n], L('type', t), semi()) for n, t in ds]))
-    return st.tuples(st.one_of(st.none(), st.none(), decl), stmts(depth, exclude), st.one_of(st.none(), st.none(), G.plain_name)).map(
-        lambda t: seq(kw('BEGIN'), t[0], t[1], kw('END'), [t[2]] if t[2] else None))
+def block(depth, exclude, outermost=False):
+    decl = _decls(lambda: kw('DECLARE'))
+    # DECLARE inside the block (MySQL) or in front of its BEGIN (PL/pgSQL nested block)
+    return st.tuples(st.one_of(st.none(), st.none(), decl), stmts(depth, exclude), st.one_of(st.none(), st.none(), G.plain_name), st.just(False) if outermost else st.booleans()).map(
+        lambda t: seq(t[0] if t[3] else None, kw('BEGIN'), t[0] if not t[3] else None, t[1], kw('END'), [t[2]] if t[2] else None))
 
 
 @functools.lru_cache(maxsize=None)
@@ -148,9 +160,8 @@ def create(depth=3, exclude=frozenset()):
     exclude = frozenset(exclude)
     top_decl = st.none()
     if 'declare_section_before_begin' not in exclude:
-        top_decl = st.one_of(st.none(), st.none(), st.lists(st.tuples(G.plain_name, st.sampled_from(G.TYPES)), min_size=1, max_size=2).map(
-            lambda ds: seq(kw('DECLARE', hz='declare_section_before_begin'), [seq([n], L('type', t), semi()) for n, t in ds])))
-    return st.tuples(header(), top_decl, block(depth, exclude)).map(
+        top_decl = st.one_of(st.none(), st.none(), _decls(lambda: kw('DECLARE', hz='declare_section_before_begin')))
+    return st.tuples(header(), top_decl, block(depth, exclude, True)).map(
         lambda t: W('stmt', seq(t[0][1], t[1], t[2]), type=t[0][0], proc=True))
 
 
